@@ -603,7 +603,7 @@ def r7(ctx, F):
         ctx.missing('C04.R7', 'FileLocation::parse')
     pfl = flow_of(p)
     rem = [bi for bi in pfl.cfg.reachable() for st in p.blocks[bi]['stmts'] if st['rv']['k'] == 'agg' and st['rv'].get('vname') == 'Remote']
-    finds = [(fb, ft) for fb, ft in pfl.calls(lambda c: c.endswith('::find')) if any(o.kind == 'const' and o.key == ord(':') for o in pfl.origins(ft['args'][1]))]
+    finds = [(fb, ft) for fb, ft in pfl.calls(lambda c: c.endswith('::find') or c.endswith('::split_once')) if any(o.kind == 'const' and o.key == ord(':') for o in pfl.origins(ft['args'][1]))]
     cont = pfl.calls(lambda c: c.endswith('str>::contains'))
     good = bool(rem) and len(finds) == 1 and len(cont) == 2
     if good:
@@ -613,14 +613,11 @@ def r7(ctx, F):
                 fe = pfl.outcomes(cb).get('false', set())
                 g = g and bool(fe) and pfl.cfg.edges_guard(fe, rb)
             # len() > 1
-            gl = False
-            for bi in pfl.cfg.reachable():
-                for st in p.blocks[bi]['stmts']:
-                    rv = st['rv']
-                    if rv['k'] == 'bin' and rv['op'] == 'Gt' and any(o.kind == 'const' and o.key == 1 for o in pfl.origins(rv['ops'][1])):
-                        oc = pfl.outcomes(None, st['dst']['l'])
-                        if oc.get('true') and pfl.cfg.edges_guard(oc['true'], rb):
-                            gl = True
+            is_len = lambda op_: any(o.kind == 'call' and str(o.key).endswith('::len') for o in pfl.origins(op_))
+            is_one = lambda op_: (lambda os_: bool(os_) and all(o.kind == 'const' and o.key == 1 for o in os_))([o for o in pfl.origins(op_) if o.kind != 'comb'])
+            is_two = lambda op_: (lambda os_: bool(os_) and all(o.kind == 'const' and o.key == 2 for o in os_))([o for o in pfl.origins(op_) if o.kind != 'comb'])
+            gt_e = order_edges(pfl, is_one, is_len, strict=True) | order_edges(pfl, is_two, is_len)     # 1 < len  |  2 <= len
+            gl = bool(gt_e) and pfl.cfg.edges_guard(gt_e, rb)
             good = good and g and gl
         chars = sorted(o.key for cb, ct in cont for o in pfl.origins(ct['args'][1]) if o.kind == 'const')
         good = good and chars == sorted([ord('/'), ord('\\')])
